@@ -299,6 +299,13 @@ func checkResponse(c Case, d int, resp *px.Resp, respBody []byte) *ev.Failure {
 			continue
 		}
 		got := resp.Header[k]
+		if k == "Via" || k == "Cache-Status" || k == "X-Cache" {
+			// the proxy appends an entry of its own: the origin's values come first, unchanged
+			if len(got) < len(vals) || !equalVals(vals, got[:len(vals)]) {
+				return ev.Failf("relay.resp.header:upstream-chain-lost:"+tag, "delivery %d (%s): response field %s: origin sent %q, client got %q - the origin's values must come first, unchanged", d, tag, k, vals, got)
+			}
+			continue
+		}
 		if !equalVals(vals, got) {
 			return ev.Failf("relay.resp.header:"+diffClass(vals, got)+":"+tag, "delivery %d (%s): response field %s: origin sent %q, client got %q", d, tag, k, vals, got)
 		}
@@ -448,6 +455,10 @@ var respPool = []hdrSpec{
 	{"x-lower-case", []string{"v"}},
 	{"Content-Disposition", []string{"attachment; filename=\"a b.txt\""}},
 	{"X-Empty", []string{""}},
+	// an origin behind a CDN or another proxy: the fields this proxy appends to are the origin's as well
+	{"Via", []string{"1.0 fred", "1.1 edge-cdn.example (squid)"}},
+	{"Cache-Status", []string{"edge-cdn; hit; ttl=30"}},
+	{"X-Cache", []string{"HIT from edge"}},
 }
 
 var respHop = [][]origin.HV{
